@@ -104,3 +104,92 @@ pub proof fn lemma_alt_reads_primitive<'s>(op: Operation, v: Version, tail: Seq<
         lemma_k_flip(kx, w); lemma_k_flip(key(v), w);
     }
 }
+// two comparators: `<op1>v <op2>w` (the printed form of a two-sided interval).  First the structure: the list winnow returned has exactly two
+// elements, each what `primitive` returns for its comparator; then what that means for bounds membership.
+pub open spec fn two_text(op1: Operation, v: Version, op2: Operation, w: Version, tail: Seq<char>) -> Seq<char> {
+    op_text(op1) + (ver_text(v) + (ch1(' ') + (op_text(op2) + (ver_text(w) + tail))))
+}
+pub open spec fn reads_cmp(op: Operation, v: Version, o: Option<BoundSet>) -> bool {
+    exists|x: (Operation, Partial)| #[trigger] primitive_post(x, o) && x.0 == op && partial_is(x.1, full_pspec(v)) && wf_partial(x.1)
+}
+// one element of the list: `simple` on a printed comparator followed by a terminator
+pub proof fn lemma_simple_reads_printed<'s>(op: Operation, v: Version, tail: Seq<char>, i: &'s str, o: Option<BoundSet>, m: &'s str)
+    requires op != Operation::Exact, wf_version(v), stops_version(tail), at_term(tail), i@ == op_text(op) + (ver_text(v) + tail), simple_acc(i, o, m),
+    ensures m@ == tail, reads_cmp(op, v, o),
+{
+    reveal_strlit(">="); reveal_strlit(">"); reveal_strlit("<="); reveal_strlit("<");
+    let e: Seq<char> = i@;
+    lemma_primitive_reads_printed(op, v, tail);
+    assert(e[0] == '>' || e[0] == '<');
+    lemma_span_unique(e, |c: char| ws_char(c), 0);
+    assert(g_partial(e) is None) by { assert(skip_lv(e) == e); assert(skip_ws(e) =~= e); assert(g_xr(e) is None); lemma_span_unique(e, |c: char| dg_char(c), 0); }
+    assert(g_hyphen_ast(e) is None);
+    assert(primitive_acc(i, o, m));
+}
+pub proof fn lemma_alt_two_structure<'s>(op1: Operation, v: Version, op2: Operation, w: Version, tail: Seq<char>, i: &'s str, outs: Seq<Option<BoundSet>>, rest: &'s str)
+    requires op1 != Operation::Exact, op2 != Operation::Exact, wf_version(v), wf_version(w), ends_alternative(tail),
+        i@ == two_text(op1, v, op2, w, tail),
+        sep_all::<&'s str, Option<BoundSet>, &'s str, SemverParseError<&'s str>, _, _>(simple, space1::<SemverParseError<&'s str>>, i, outs, rest),
+    ensures rest@ == tail, outs.len() == 2, reads_cmp(op1, v, outs[0]), reads_cmp(op2, w, outs[1]),
+{
+    broadcast use def_simple_acc, def_simple_rej, def_space1_acc, def_space1_rej;
+    reveal_strlit(">="); reveal_strlit(">"); reveal_strlit("<="); reveal_strlit("<");
+    let t2 = op_text(op2) + (ver_text(w) + tail);
+    let tail1 = ch1(' ') + t2;
+    assert(tail1[0] == ' ');
+    assert(t2[0] == '>' || t2[0] == '<');
+    assert(outs.len() > 0);
+    let m = choose|m: &'s str| #[trigger] Parser::<&'s str, Option<BoundSet>, SemverParseError<&'s str>>::accepts(&simple, i, outs[0], m) && sep_tail::<&'s str, Option<BoundSet>, &'s str, SemverParseError<&'s str>, _, _>(simple, space1::<SemverParseError<&'s str>>, m, outs.drop_first(), rest);
+    lemma_simple_reads_printed(op1, v, tail1, i, outs[0], m);
+    lemma_span_unique(tail1, |c: char| ws_char(c), 1);
+    let r1 = outs.drop_first();
+    assert(r1.len() > 0);
+    let (sx, m2, m3) = choose|sx: &'s str, m2: &'s str, m3: &'s str| #[trigger] Parser::<&'s str, &'s str, SemverParseError<&'s str>>::accepts(&space1::<SemverParseError<&'s str>>, m, sx, m2) && #[trigger] Parser::<&'s str, Option<BoundSet>, SemverParseError<&'s str>>::accepts(&simple, m2, r1[0], m3) && sep_tail::<&'s str, Option<BoundSet>, &'s str, SemverParseError<&'s str>, _, _>(simple, space1::<SemverParseError<&'s str>>, m3, r1.drop_first(), rest);
+    assert(m2@ =~= t2);
+    lemma_simple_reads_printed(op2, w, tail, m2, r1[0], m3);
+    lemma_span_unique(tail, |c: char| ws_char(c), 0);
+    assert(r1.drop_first().len() == 0);
+    assert(outs[1] == r1[0]);
+}
+pub proof fn lemma_cmp_within(op: Operation, v: Version, o: Option<BoundSet>)
+    requires op != Operation::Exact, wf_version(v), reads_cmp(op, v, o),
+    ensures o is Some, forall|x: VKey| #![trigger within(o->Some_0, x)] within(o->Some_0, x) <==> op_admits(op, key(v), x),
+{
+    let xx = choose|x: (Operation, Partial)| #[trigger] primitive_post(x, o) && x.0 == op && partial_is(x.1, full_pspec(v)) && wf_partial(x.1);
+    reveal(cut_cmp);
+    lemma_texts_read_back(v.pre_release@);
+    lemma_idents_are_same(xx.1.pre_release@, v.pre_release@, full_pspec(v).pre);
+    let k1 = k4(pM(xx.1), pm(xx.1), pp(xx.1), xx.1.pre_release@);
+    assert(o is Some);
+    let b = o->Some_0;
+    assert forall|x: VKey| #![trigger within(b, x)] within(b, x) <==> op_admits(op, key(v), x) by {
+        lemma_same_key_same_order(k1, key(v), x); lemma_k_flip(k1, x); lemma_k_flip(key(v), x);
+    }
+}
+pub proof fn lemma_alt_reads_two<'s>(op1: Operation, v: Version, op2: Operation, w: Version, tail: Seq<char>, i: &'s str, o: Vec<BoundSet>, rest: &'s str)
+    requires op1 != Operation::Exact, op2 != Operation::Exact, wf_version(v), wf_version(w), ends_alternative(tail),
+        i@ == two_text(op1, v, op2, w, tail), range_acc(i, o, rest),
+    ensures
+        rest@ == tail,
+        forall|x: VKey| #![trigger any_within(o@, o@.len() as int, x)] any_within(o@, o@.len() as int, x) <==> (op_admits(op1, key(v), x) && op_admits(op2, key(w), x)),
+{
+    reveal_strlit(">="); reveal_strlit(">"); reveal_strlit("<="); reveal_strlit("<");
+    let e: Seq<char> = i@;
+    assert(e[0] == '>' || e[0] == '<');
+    lemma_span_unique(e, |c: char| ws_char(c), 0);
+    assert(skip_ws(e) =~= e);
+    assert(!empty_alt(e));
+    let outs = choose|outs: Seq<Option<BoundSet>>| #[trigger] sep_all::<&'s str, Option<BoundSet>, &'s str, SemverParseError<&'s str>, _, _>(simple, space1::<SemverParseError<&'s str>>, i, outs, rest) && all_elem_ok(outs) && conj_post(outs, o@);
+    lemma_alt_two_structure(op1, v, op2, w, tail, i, outs, rest);
+    lemma_cmp_within(op1, v, outs[0]);
+    lemma_cmp_within(op2, w, outs[1]);
+    let b1 = outs[0]->Some_0; let b2 = outs[1]->Some_0;
+    assert forall|x: VKey| #![trigger any_within(o@, o@.len() as int, x)] any_within(o@, o@.len() as int, x) <==> (op_admits(op1, key(v), x) && op_admits(op2, key(w), x)) by {
+        assert(all_within(outs, 2, x) <==> (within(b1, x) && within(b2, x))) by {
+            if within(b1, x) && within(b2, x) { assert forall|j: int| 0 <= j < 2 && j < outs.len() implies ((#[trigger] outs[j]) matches Some(b) ==> within(b, x)) by { if j == 0 { } else { assert(j == 1); } } }
+            if all_within(outs, 2, x) { assert(outs[0] matches Some(b) ==> within(b, x)); assert(outs[1] matches Some(b) ==> within(b, x)); }
+        }
+        assert(has_some(outs, 2)) by { assert(outs[0] is Some); }
+        if o@.len() == 1 { assert(any_within(o@, 1, x) <==> within(o@[0], x)); }
+    }
+}
